@@ -72,7 +72,9 @@ FLOORS = {}
 # Faults the tree is known to swallow and that are NOT among the statement's examples of wrongly typed entries that matter: an unknown
 # or wrongly typed `style` is logged and the default (att) used.  For these 'found' is counted as accepted; for every other fault a
 # 'found' without an error is a deviation.
-LENIENT = {"cfg-style-int", "cfg-style-unknown"}
+# ... and bounds written without quotes: `min: 0x1000` is read as the text it says since F52 (the intact pair's verdict is then the
+# right answer); decimal-looking bounds (`min: 401000`) are YAML integers and must still fail - both are "loud or read as written".
+LENIENT = {"cfg-style-int", "cfg-style-unknown", "cfg-valid-addr-range-unquoted-bounds"}
 
 
 def budget(tier):
